@@ -99,7 +99,7 @@ var wrappers = []wrapper{
 	{"callback", func(b string, id int) string { return "hostcall(func() {\n\t" + indent(b) + "\n})" }, false},
 }
 
-var depth3Rep = map[string]bool{"if": true, "loop": true, "try-body": true, "catch-body": true, "finally-body": true, "coalesce-left": true, "func1": true, "func5": true, "deferred": true, "go": true, "callback": true}
+var depth3Rep = map[string]bool{"if": true, "loop": true, "try-body": true, "catch-body": true, "coalesce-left": true, "func1": true, "deferred": true, "go": true, "callback": true}
 
 func allRep(path []int) bool {
 	for _, wi := range path {
